@@ -86,14 +86,15 @@ def analyse_text(text, scratch, embed=None):
             'embed': embed or {}, 'n': len(order)}
 
 
-def closure_reads(info, roots):
-    """tasks that (transitively) read a task in roots"""
+def closure_reads(info, roots, reported=True):
+    """tasks that (transitively) depend on a task in roots: by the results they really read and - since jug may wait conservatively,
+    e.g. a slice of a mapped sequence waits for all its blocks - by what Task.dependencies() reports"""
     bad = set(roots)
     changed = True
     while changed:
         changed = False
         for i, inf in enumerate(info):
-            if i not in bad and any(d in bad for d in inf['reads']):
+            if i not in bad and any(d in bad for d in (set(inf['reads']) | (set(inf['reported']) if reported else set()))):
                 bad.add(i)
                 changed = True
     return bad
@@ -117,6 +118,8 @@ def to_model_events(trace):
             evs.append(['crash', e[1]])
         elif k in ('removeLocks', 'removeFailedLocks'):
             evs.append([k])
+        elif k == 'lockAttempt':
+            pass
         else:
             raise ValueError(e)
     return evs
@@ -136,7 +139,7 @@ class Case:
     pass
 
 
-def run_case(P, scratch, backend_kind, nworkers, rng, flags=None, faults=None, kill_plan=None, pre_done=0, policy=None, late=None, max_tasks=None, tag='c'):
+def run_case(P, scratch, backend_kind, nworkers, rng, flags=None, faults=None, kill_plan=None, pre_done=0, policy=None, late=None, max_tasks=None, tag='c', fs_gates=False):
     """pre_done: number of leading tasks (creation order) already computed before the workers start (for filepack: and packed)"""
     c = Case()
     be = Backend(backend_kind, scratch, tag)
@@ -161,8 +164,9 @@ def run_case(P, scratch, backend_kind, nworkers, rng, flags=None, faults=None, k
     for k, plan in (faults or {}).items():
         lib.FAULTS[k] = plan
     trace, results, loaded = sched.run_workers(P['path'], lambda w: be.store(), nworkers, rng, flags=flags, policy=policy, kill_plan=kill_plan,
-                                               index=P['index'], late=late, max_tasks=max_tasks)
+                                               index=P['index'], late=late, max_tasks=max_tasks, fs_gates=fs_gates and backend_kind in ('file', 'filepack'))
     c.trace, c.results, c.res0, c.calls = trace, results, res0, list(lib.CALLS)
+    c.gates = dict(sched.CURRENT.gates) if sched.CURRENT is not None else {}
     lib.FAULTS.clear()
     # final shared state as a fresh client sees it
     fs = be.store()
